@@ -124,7 +124,7 @@ def report(c, results, oracle_bad, ok_build, ok_audit, proof_name, audit_name):
     # search the differing programs for a concrete failing input: an execution that fails *inside the runtime*
     # (a message that is neither the program's own panic nor one of the runtime's documented diagnoses) where the
     # model, which the theorems are about, goes on differently
-    if not oracle_bad:
+    if reported == 0:            # (known findings do not explain a broken correspondence or proof)
         for name, r in results.items():
             for n, i, a, b in r["diffs"]:
                 if a.startswith("E panic ") and not any(k in a for k in EXPECTED_FAILURES) and f"{c.pid}:runtime-panic" not in seen:
@@ -132,8 +132,7 @@ def report(c, results, oracle_bad, ok_build, ok_audit, proof_name, audit_name):
                     if c.violation(f"the runtime itself fails on this program: `{a[8:200]}` (the model continues with `{b[:80]}`)",
                                    {"kind": "program", "program": r["progs"].get(n, []), "stream": name}, f"{c.pid}:runtime-panic"):
                         reported += 1
-                    oracle_bad = oracle_bad + [("runtime-panic", None, f"{c.pid}:runtime-panic")]
-    if not oracle_bad:
+    if reported == 0:            # (known findings do not explain a broken correspondence or proof)
         for name, r in results.items():
             if r["diffs"]:
                 n, i, a, b = r["diffs"][0]
